@@ -102,13 +102,13 @@ def handlePgn (toks : List String) : Option String :=
     match (Gen.fasts.filter (·.pgn = n)).getLast? with
     | some e => pure (match e.fast with | some true => "true" | some false => "false" | none => "raises")
     | none => pure "nofn"
-  | ["decnum", d, o, l, sg, res, mn, mx] => do
-    match decodeNumber (← parseNat? d) (← parseNat? o) (← parseNat? l) (sg = "1") (← parseLit? res) (← parseLit? mn) (← parseLit? mx) with
+  | ["decnum", d, o, l, sg, res, mn, mx, ofs] => do
+    match decodeNumber (← parseNat? d) (← parseNat? o) (← parseNat? l) (sg = "1") (← parseLit? res) (← parseLit? mn) (← parseLit? mx) (← parseLit? ofs) with
     | .ok none => pure "ok N"
     | .ok (some x) => pure ("ok " ++ showVal (numVal x))
     | .error e => pure ("err " ++ showDecErr e)
-  | ["encnum", v, l, sg, res] => do
-    match encodeNumber (← parseVal? v) (← parseNat? l) (sg = "1") (← parseLit? res) with
+  | ["encnum", v, l, sg, res, ofs] => do
+    match encodeNumber (← parseVal? v) (← parseNat? l) (sg = "1") (← parseLit? res) (← parseLit? ofs) with
     | .ok z => pure s!"ok {z}"
     | .error e => pure ("err " ++ showEncErr e)
   | _ => none
